@@ -80,6 +80,9 @@ PROPS["C17"] = {
              "no flags): histories of <=120 steps {fill k NOPs stamped with sequence numbers, flush, io_uring_enter(everything flushed), "
              "reap k}; oracle: a slot is refused exactly when all (rounded-up) slots are in use, the kernel consumes exactly what was "
              "flushed, completions carry the sequence numbers exactly once and in order (NOPs complete inline), res 0. "
+             "Sub-check real-sqpoll: SQPOLL rings (idle 5 ms) driven by the documented protocol (flush, fence, one look at needs_wakeup, "
+             "enter with SQ_WAKEUP), 1-5 rounds of 1-16 stamped NOPs separated by 0-30 ms of quiet; every submission consumed and completed "
+             "once, in order, within 6 s. "
              "Non-trivial = a counter crossed 2^32 or 2^31, or the completion ring was full at some step (real: more submissions than "
              "the ring has slots); distinct by hash of the case."),
     "assumptions": ["the simulated kernel follows the io_uring ABI (indices are free-running u32, masked on use)",
@@ -87,7 +90,7 @@ PROPS["C17"] = {
                     "sub-check ring: the IoUring value is built through the verif-hooks constructor, not by io_uring_setup; sub-check real: built by setup_io_uring, index wrap is out of reach there",
                     "sub-check real: NOP submissions without flags complete inline, in submission order (true of every kernel so far; observed here), so completion order shows consumption order"],
     "required_classes": ["ring:counter-crossed-2^32", "ring:counter-crossed-2^31", "ring:cq-full", "ring:sq-full-none", "ring:sqe128", "ring:cqe32", "ring:ring-size-1",
-                         "real:entries-not-power-of-two", "real:sq-slots-cycled-3x", "real:sq-full-none"],
+                         "real:entries-not-power-of-two", "real:sq-slots-cycled-3x", "real:sq-full-none", "real-sqpoll:round-after-15-ms-of-quiet-needed-a-wakeup"],
 }
 
 
